@@ -92,6 +92,17 @@ CLAIMED["C02"] = ("other",
     "Assumes time.Time accessor ranges, |zone offset| < 24 h, years 0..9999; append/range semantics of Go.",
     "DESIGN.md §4 C02")
 
+CLAIMED["C14"] = ("other",
+    "layout extraction by abstract interpretation of the encoders' write calls and a path walk of the decoder with a memory model (go/ssa), offsets as polynomial forms over the length fields; interval analysis for wrap-around",
+    "Decides encoder/decoder agreement for every well-formed structure at once: for all eight combinations of the release-identifier tests every field the encoders write is read back into the same member from the same offset form, word width, bit position and with a mask of exactly its bits; the record loop starts where the header ends, advances by record header + CdrLength, takes exactly CdrLength payload octets and runs NumberOfCdrsInFile times; no 8/16-bit offset arithmetic in the decoder can wrap. Equality of structures for concrete values follows for well-formed inputs and is not separately executed.",
+    "Trusted: encoding/binary, bytes.Buffer. Length fields are assumed consistent with the content (the statement's well-formedness); malformed files are C16-like behaviour and not decided here.",
+    "DESIGN.md §4 C14")
+CLAIMED["C15"] = ("other",
+    "the same layout extraction compared with an independent table written from TS 32.297 clause 6.1.1/6.1.2 in the checker",
+    "Decides conformance of the byte layout against an oracle that shares no code with the encoder: for every release-identifier combination each field's offset form, word width, bit shift and bit count, the presence and order of the extension octets, big-endian order of every multi-octet word and the header/record/payload shape of the file equal the specification table; the decoder's reads equal the same table, so a matching pair of wrong offsets is caught. A write the extractor cannot interpret fails the check as undecided.",
+    "Trusted: encoding/binary.Write writes the fixed-size representation in the given order. The table's field names are those of the Go structures (the mapping of specification fields to structure members is part of the oracle).",
+    "DESIGN.md §4 C15")
+
 # id -> reason, for properties not (yet) claimed
 NOT_APPLICABLE = {
 }
